@@ -660,6 +660,11 @@ pub(crate) fn exec_op<'scope, 'env>(
             panic!("vp-panic")
         }
         "obs" => "ok".into(),
+        // wall-clock time passes (no Shuttle effect): for the time-limit check of C13
+        "spin" => {
+            std::thread::sleep(std::time::Duration::from_millis(op.num(0)));
+            "ok".into()
+        }
         // ---- atomics
         "aload" | "astore" | "aswap" | "aadd" | "asub" | "aand" | "aor" | "axor" | "anand" | "amax" | "amin"
         | "acas" => {
